@@ -151,6 +151,16 @@ impl EventParser {
                         events,
                         symbols,
                     );
+                    // let PAT = EXPR else { .. }: the diverging block is part of the body too
+                    if let Some((_, diverge)) = &init.diverge {
+                        self.extract_events_from_expr(
+                            diverge,
+                            file_path,
+                            type_resolver,
+                            events,
+                            symbols,
+                        );
+                    }
                 }
             }
             _ => {}
